@@ -46,7 +46,7 @@ func main() {
 			return 6
 		},
 		Floors: func(t string) map[string]int64 {
-			return map[string]int64{"runs": 40, "exchanges": 4000, "connections_reused": 200, "yield_point_visits": 5000, "gauge_samples": 2000}
+			return map[string]int64{"get_timeout_calls_timed_out": 50, "runs": 40, "exchanges": 4000, "connections_reused": 200, "yield_point_visits": 5000, "gauge_samples": 2000}
 		},
 		CaseTimeout: 120 * time.Second,
 		Work:        work,
@@ -191,9 +191,13 @@ func (d *dialer) peer(c net.Conn, cid int) {
 		}
 		io.Copy(io.Discard, req.Body)
 		id := req.Header.Get("X-Id")
+		plan := req.Header.Get("X-Plan")
+		if id == "" { // the Get* helper APIs take only a URL
+			id = req.URL.Query().Get("id")
+			plan = req.URL.Query().Get("plan")
+		}
 		v, _ := d.recv.LoadOrStore(id, new(int32))
 		atomic.AddInt32(v.(*int32), 1)
-		plan := req.Header.Get("X-Plan")
 		d.log.add("peer-recv", cid, id, plan)
 		body := fmt.Sprintf("id=%s;conn=%d", id, cid)
 		// send writes everything but the last byte, logs "peer-sent", then writes the last
@@ -206,6 +210,9 @@ func (d *dialer) peer(c net.Conn, cid int) {
 		}
 		switch plan {
 		case "ok":
+			send(fmt.Sprintf("HTTP/1.1 200 OK\r\nContent-Length: %d\r\n\r\n%s", len(body), body))
+		case "slow": // answer correctly, but only after the caller's own timeout has fired
+			time.Sleep(60 * time.Millisecond)
 			send(fmt.Sprintf("HTTP/1.1 200 OK\r\nContent-Length: %d\r\n\r\n%s", len(body), body))
 		case "okchunked":
 			send(fmt.Sprintf("HTTP/1.1 200 OK\r\nTransfer-Encoding: chunked\r\n\r\n%x\r\n%s\r\n0\r\n\r\n", len(body), body))
@@ -607,6 +614,64 @@ func work(w *mon.W) {
 		w.Count(fmt.Sprintf("yield_point_%d_visits", i), n)
 	}
 	w.Count("yield_point_visits", tot)
+	// the Get*/timeout helper APIs: a call that gives up on its own timeout leaves its
+	// request running in the background; later calls must still get their own responses
+	w.Cases("get-timeout", uint64(w.Pick(60, 1500)), func(c *mon.Case) {
+		r := c.R
+		log := &runLog{}
+		d := &dialer{log: log, r: r.Fork()}
+		hc := http1.NewHostClient(&http1.ClientOptions{Dialer: d, MaxConns: 1 + r.Intn(4), ReadTimeout: 2 * time.Second, MaxConnWaitTimeout: time.Second}).(*http1.HostClient)
+		hc.Addr = "peer:80"
+		n := 4 + r.Intn(10)
+		var desc []string
+		c.Detail = func() interface{} { return map[string]interface{}{"family": "get-timeout", "calls": desc} }
+		var wg sync.WaitGroup
+		var mu sync.Mutex
+		bad := ""
+		for i := 0; i < n; i++ {
+			id := fmt.Sprintf("g%d-%d", c.G, i)
+			plan := "ok"
+			timeout := 2 * time.Second
+			if r.Chance(3) {
+				plan, timeout = "slow", 15*time.Millisecond
+			}
+			useDeadline := r.Bool()
+			desc = append(desc, fmt.Sprintf("%s plan=%s timeout=%v deadlineAPI=%v", id, plan, timeout, useDeadline))
+			call := func() {
+				url := fmt.Sprintf("http://peer/x?id=%s&plan=%s", id, plan)
+				var body []byte
+				var err error
+				if useDeadline {
+					_, body, err = hc.GetDeadline(context.Background(), nil, url, time.Now().Add(timeout))
+				} else {
+					_, body, err = hc.GetTimeout(context.Background(), nil, url, timeout)
+				}
+				w.Count("get_timeout_calls", 1)
+				if err == nil && !strings.HasPrefix(string(body), "id="+id+";") {
+					mu.Lock()
+					bad = fmt.Sprintf("%s(%s) returned the body %q, which answers another request", map[bool]string{true: "GetDeadline", false: "GetTimeout"}[useDeadline], id, body)
+					mu.Unlock()
+				}
+				if err != nil && plan == "slow" {
+					w.Count("get_timeout_calls_timed_out", 1)
+				}
+			}
+			if r.Chance(4) {
+				wg.Add(1)
+				go func() { defer wg.Done(); call() }()
+			} else {
+				call()
+			}
+		}
+		wg.Wait()
+		if bad != "" {
+			c.Violate("matching", "%s; calls %v", bad, desc)
+		}
+		// let abandoned background requests finish, then drop the connections
+		time.Sleep(80 * time.Millisecond)
+		hc.CloseIdleConnections()
+		w.Shape(mon.Hash64("get-timeout", strings.Join(desc, ";")))
+	})
 	// the pending-gauge family: Do with an already-cancelled context must leave the gauge at 0
 	w.Cases("cancelled", uint64(w.Pick(50, 500)), func(c *mon.Case) {
 		log := &runLog{}
